@@ -62,7 +62,7 @@ GROUPS = {
             Rec("SimEvent", {"time": "Int", "priority": "Int", "unique_id": "Int", "_canceled": "Bool"}, extern="Mesa.Devs.Ev",
                 access={"time": "{}.time", "priority": "({}.prio : Int)", "unique_id": "({}.id : Int)", "_canceled": "{}.cancelled"},
                 literal="({{ time := {time}, prio := ({priority} : Int).toNat, id := ({unique_id} : Int).toNat, tag := 0, "
-                        "isStep := false, cancelled := {_canceled}, dead := false, act := 0 }} : Mesa.Devs.Ev)"),
+                        "isStep := false, cancelled := {_canceled}, dead := false, act := 0, fn := 0 }} : Mesa.Devs.Ev)"),
             Rec("EventList", {"_events": ("L", ("R", "SimEvent"))}),
             Rec("SimulatorRec", {"time": "Int"}),
         ],
